@@ -127,6 +127,10 @@ func (packet *Packet) GetBindParameters(paramNum int) ([]base.BoundValue, error)
 		// 7 + num-params offset from docs
 		// For COM_STMT_EXECUTE this offset is 0
 		nullBitMapLength := (paramNum + 7) / 8
+		// the NULL-bitmap and the new_params_bind_flag are indexed below: they have to be inside the packet
+		if len(packet.data) < pos+nullBitMapLength+1 {
+			return nil, base_mysql.ErrMalformPacket
+		}
 		if nullBitMapLength > 0 {
 			nullBitmap = packet.data[pos : pos+nullBitMapLength]
 		}
@@ -144,6 +148,10 @@ func (packet *Packet) GetBindParameters(paramNum int) ([]base.BoundValue, error)
 
 	//here we need to gather all provided param types
 	paramTypes := make([]byte, paramNum)
+	// two bytes (type, unsigned flag) per parameter
+	if len(packet.data) < pos+2*paramNum {
+		return nil, base_mysql.ErrMalformPacket
+	}
 	for i := 0; i < paramNum; i++ {
 		paramTypes[i] = packet.data[pos]
 		pos += 2
@@ -181,6 +189,11 @@ func (packet *Packet) SetParameters(values []base.BoundValue) (err error) {
 	// 1 - flags
 	// 4 - iteration-count
 	pos := 10
+
+	// NULL-bitmap, new-params-bound-flag and two type bytes per parameter are sliced below
+	if len(packet.data) < pos+(len(values)+7)>>3+1+2*len(values) {
+		return base_mysql.ErrMalformPacket
+	}
 
 	// NULL-bitmap, length: (num-params+7)/8
 	// new-params-bound-flag
